@@ -241,7 +241,7 @@ Definition space1 (s d : Z) (mode : spacemode) (i : interval) : list interval :=
   else match mode with
        | SStretch => [mkI (istart i) (iend i + d) (ilabel i)]
        | SSplit => [mkI (istart i) s (ilabel i);
-                    mkI (s + d) (s + d + (iend i - s)) (ilabel i)]
+                    mkI (s + d) (iend i + d) (ilabel i)]
        | SNoChange => [i]
        | SError => []
        end.
